@@ -16,6 +16,8 @@ std::string encode_props(const Props& p);
 // ---- strict decoding of one complete packet (fixed header included)
 // returns empty string on success, else a description of the first violation
 std::string decode_strict(const std::string& raw, Packet& out, bool from_server = false);
+// as decode_strict, but Protocol Errors that do not prevent parsing (duplicate / foreign property) are accepted
+std::string decode_lenient(const std::string& raw, Packet& out, bool from_server = false, bool utf8_too = false);   // utf8_too: ill-formed UTF-8 (a Malformed Packet) is let through as well, to classify what a client accepted
 
 // ---- incremental framing of a byte stream
 struct Framer {
